@@ -1,6 +1,6 @@
 """Shared by C05/C06/C07/C09: extended rculfhash scenario (harness/scen_lfhtx.c: every public operation, explicit resizes, abstract RCU
 flavor with a waiting synchronize_rcu, quarantining bucket allocator), oracles on its traces, projection onto the resize protocol."""
-import re
+import re, os
 from vlib import *
 import oracles
 import lfht_common as L0
@@ -317,6 +317,23 @@ def auto_resize_bound_cases(ctx):
             for j in ((0, 40, 200) if ctx.quick() else (0, 5, 10, 20, 40, 80, 120, 200)):
                 cases.append((prog, ('>0' + '1b' * j) * 14, cf))
     return cases
+
+def auto_resize_probe(ctx):
+    """real work-queue thread, both automatic triggers (chain length, node count with CDS_LFHT_ACCOUNTING), all allocators, max_nr_buckets far below the node count:
+    bucket count and resize target within the maximum at all times, contents preserved (harness/seqdiff/lfht_auto.c)"""
+    exe = os.path.join(BUILD, 'lfht_auto')
+    srcs = [REPO + '/src/' + f for f in ('rculfhash.c', 'rculfhash-mm-order.c', 'rculfhash-mm-chunk.c', 'rculfhash-mm-mmap.c', 'workqueue.c', 'wfcqueue.c', 'wfstack.c', 'compat_futex.c', 'compat_arch.c')]
+    rc, so, se = sh(['gcc', '-O1', '-g', '-w', '-include', REPO + '/include/config.h', '-I' + REPO + '/include', '-I' + REPO + '/src', os.path.join(HARN, 'seqdiff/lfht_auto.c')] + srcs + ['-o', exe, '-lpthread'])
+    if rc: ctx.fail('harness', 'build of seqdiff/lfht_auto.c', se[-600:]); return
+    out = os.path.join(BUILD, 'lfht_auto.out'); rounds = '1' if ctx.quick() else '6'
+    rc, _, _ = sh('timeout -s KILL 240 %s %s > %s 2>&1 < /dev/null' % (exe, rounds, out), timeout=260)
+    txt = open(out).read() if os.path.exists(out) else ''
+    ok = len(re.findall(r'^round \d+ .* ok$', txt, flags=re.M)); ctx.cov['evaluations'] += ok * 6000; ctx.cov['distinct_nontrivial'] += ok
+    bug = re.search(r'^BUG.*$', txt, flags=re.M)
+    if rc != 0 or bug:
+        v = bug.group(0) if bug else 'probe exited with %d: %s' % (rc, txt[-200:])
+        ctx.fail('oracle', 'automatic resizing with the real work-queue thread (lfht_auto)', v, concrete={'probe': 'harness/seqdiff/lfht_auto.c', 'args': [rounds], 'verdict': v})
+    ctx.cov['input_distribution']['lfht_auto'] = {'rounds': int(rounds), 'configurations_ok': ok}
 
 def lazy_destroy_cases(ctx):
     """lazy resize carried out by the library's work-queue thread (AUTO_RESIZE; the worker is thread 1 of the run), the table emptied and destroyed while the resize is
